@@ -16,6 +16,8 @@ def gen(t, rng, alpha, depth=0):
     k = t[0]
     if k == 'cls':
         ranges = t[1]
+        if not ranges:
+            return '\x00'        # the empty class (a pattern emitted as "matches nothing"): any character will do
         # prefer ASCII members when the class has some (keeps most strings "ordinary")
         asc = [r for r in ranges if r[0] < 128]
         if asc and rng.random() < 0.85:
